@@ -7,7 +7,10 @@ from ..common import blit, coq_eval, zlit
 MANIFEST = {
 	'text': 'All 8 identifier laws are Qed theorems (Props/C13.v, closed under the global context) over the model of IdGenerator.py, '
 		'Metadata.py and the alias half of symbol.Network.Address, instantiated with the Gallina SHA3-256 and with constants/operators '
-		'regenerated from the source on every run; model and implementation are compared on seeded inputs for all 8 functions.',
+		'regenerated from the source on every run; model and implementation are compared on seeded inputs for all 8 functions.  Added: '
+		'the level-by-level law as equations (path_level_by_level, path_composes, path_has_one_id_per_part), the mosaic alias id '
+		'(mosaic_alias_id_is_last_level, mosaic_alias_id_is_namespace_id), mosaic_and_namespace_ids_disjoint, and the exact shape of '
+		'the update payload (xor_update_length, xor_update_overlap, xor_update_tail, xor_update_self).',
 	'design_ref': 'DESIGN.md section 4, C13',
 	'technique': 'Coq proof over regenerated model + vm_compute correspondence with the Python implementation',
 }
